@@ -40,6 +40,8 @@ def run_sp(case):
                 classes.add("more urgent arrival during a transmission")
     if multi_level_starts >= 2:
         classes.add(">=2 levels backlogged at >=2 service starts")
+    if any(int(a) == int(b) and a != b for _, a in case["table"] for _, b in case["table"]):
+        classes.add("priorities that differ only in their fractional part")
     if any(w[2] == 0 for w in case["wl"]):
         classes.add("zero-length packet")
     fl = {f for f, _ in case["table"]}
@@ -68,7 +70,9 @@ def strategy(tier):
 
     def build(n):
         flows = st.permutations(list(range(6))).map(lambda p: list(p)[:n])
-        return st.tuples(flows, st.lists(st.integers(1, 4), min_size=n, max_size=n), st.integers(0, 3)).flatmap(
+        # priorities are numbers, not necessarily integers: 1.25 < 1.75, 0.25 < 0.5
+        prio = kgen.weighted([(st.integers(1, 4), 3), (st.sampled_from([1.25, 1.75, 0.5, 0.25, 2.5, 1.5, 0.75]), 1)])
+        return st.tuples(flows, st.lists(prio, min_size=n, max_size=n), st.integers(0, 3)).flatmap(
             lambda t: st.tuples(schedlab.nice_rate(),
                                 kgen.weighted([(schedlab.sched_workload(t[0], 45 if big else 28, exact=True, sizes=SIZES0), 3),
                                                (schedlab.sched_workload(t[0], 30, static=True), 1)])).map(
@@ -87,7 +91,7 @@ PROP = Property(
     facets=[Facet("sp", strategy, run_sp, quick=1200, thorough=8000,
                   essential=[">=2 levels backlogged at >=2 service starts", "higher level served over waiting lower level",
                              "more urgent arrival during a transmission", "equal priorities backlogged",
-                             "flow2class maps onto other flows' ids"])],
+                             "flow2class maps onto other flows' ids", "priorities that differ only in their fractional part"])],
     assumptions=["'waiting at that instant' = arrival observed (tap order) before the previous exit; same-instant arrivals after it "
                  "may or may not have been seen by the scheduler"],
 )
